@@ -25,6 +25,19 @@ CHECKS = {
              note=T_BASE + '; SHA-256 uninterpreted',
              technique='contracts on the real functions, symbolic execution over all paths with abstract children, exhaustive finite case split, z3',
              design_ref='DESIGN.md §5 C02'),
+ 'C03': dict(category='other',
+             text='Deductive: the WHOLE pipeline (to_boc -> Boc -> header -> per-cell decode -> graph rebuild) runs symbolically on every '
+                  'DAG shape with <= 3 cells, two 4-cell sharing shapes and a Merkle-proof/pruned/library DAG, with symbolic contents and '
+                  'data lengths, under the 6 option sets (quick tier: all option sets for the small shapes, 2 for the others; thorough: '
+                  'all): the parsed root has the same hash and recursively the same bits, types and references, and sharing is kept; '
+                  'bytes / hex / base64 forms hold the same data; Cell / Slice / Builder entry points return the same root.  For larger '
+                  'DAGs the round trip is the composition of C04 (to_boc emits the specification encoding, header widths unbounded) and '
+                  'C05 (the parser decodes every specification encoding); that composition and Cell.order on unbounded DAGs are a BOUNDED '
+                  'native stand-in: random DAGs with sharing and exotic cells, 255/256/257 cells, chains of depth 1023, shared ladders, '
+                  'all option sets x encodings x entry points.',
+             note=T_BASE + '; crc32c by contract (C18); T2/T4 hex and base64 inverse pairs',
+             technique='contracts on the real functions, symbolic execution of the whole serialise/parse pipeline (bounded cell count, symbolic contents), z3; native round trips (bounded) for large DAGs',
+             design_ref='DESIGN.md §5 C03'),
  'C04': dict(category='other',
              text='Deductive: Cell.serialize = d1 d2 pad(bits) ++ k-byte reference indexes (all r, k, symbolic data/indexes); the whole '
                   'of to_boc on every DAG shape with <= 3 cells and two 4-cell sharing shapes (contents and data lengths symbolic) under '
